@@ -41,6 +41,7 @@ def _classify_parse(op, out):
 CFG = PropCfg(
     "C05", "HopModel.Props.C05",
     [SuiteCfg("C05", nontrivial=_nontrivial, signature=_sig, classify=_classify),
+     SuiteCfg("C05sess", nontrivial=_nontrivial, signature=_sig, classify=_classify),
      SuiteCfg("C05parse", stateless=True, signature=_sig, classify=_classify_parse,
               nontrivial=lambda ops, outs: True)],
     rule="suite C05: a case is a history on one real HopServer (NewHopServerExt + SetFSystem(fstest.MapFS) + faked "
@@ -51,11 +52,15 @@ CFG = PropCfg(
          "a line at the 64 KiB scanner limit +-2), CRLF / missing final newline / concatenated entries; missing user, "
          "missing file, directory instead of file; then AuthorizeKey, AddAuthGrant, AuthorizeKeyAuthGrant, the "
          "checkAuthorization decision and the transport key set, with grants enabled or not. distinct_nontrivial "
-         "counts distinct histories in which at least one request was admitted and one refused. suite C05parse: "
+         "counts distinct histories in which at least one request was admitted and one refused. suite C05sess: the "
+         "same kind of histories, with every `login` answered by the real hopSession.checkAuthorization (verif hook) on "
+         "a session whose user-auth tube runs over an in-memory message connection; the confirmation byte the client "
+         "reads must agree with the method's result. suite C05parse: "
          "core.ParseAuthorizedKeys, keys.ParseDHPublicKey, strings.TrimSpace and bufio.Scanner alone on the same "
          "grammar (every line a case).",
-    assumptions=["the login decision is driven through HopServer.AuthorizeKey / AuthorizeKeyAuthGrant composed as "
-                 "hopSession.checkAuthorization composes them (that method itself needs a live transport session)",
+    assumptions=["suite C05 drives the login decision through HopServer.AuthorizeKey / AuthorizeKeyAuthGrant composed as "
+                 "hopSession.checkAuthorization composes them; suite C05sess runs checkAuthorization itself, with the "
+                 "transport handshake replaced by a handle that reports the client key (hook)",
                  "Go's bufio.Scanner, strings.TrimSpace and encoding/base64 are modelled from their source and tied "
                  "only by the differential run"],
 )
@@ -71,8 +76,8 @@ MANIFEST = {
             "Unicode TrimSpace, abort on the first bad line), AuthorizeKey, AddAuthGrant, AuthorizeKeyAuthGrant and "
             "is tied to the real HopServer by differential histories over generated files.",
     "design_ref": "DESIGN.md 5.5",
-    "note": "Trusted: Lean kernel; the differential run ties the model to the code; the checkAuthorization "
-            "composition is replayed by the harness from the two public entry points; read errors in the middle of "
+    "note": "Trusted: Lean kernel; the differential run ties the model to the code; checkAuthorization runs "
+            "on a hook-built session (no transport handshake); read errors in the middle of "
             "a file are not injectable through fstest.MapFS (only 'directory instead of file').",
     "technique": "Lean 4 proof (history invariant: grant map = unconsumed additions) + differential correspondence with the real HopServer",
 }
